@@ -326,6 +326,7 @@ package ipfscluster
 //@   modifies nLogPin, lastLogged, heap(api.Pin)
 
 //@ ghost var vacateN int
+//@ ghost var lastVacated peer.ID
 //@ ghost var rmPeerN int
 //@ ghost var lastRmPeer peer.ID
 //@ interface Consensus.RmPeer(ctx, p)
@@ -336,6 +337,7 @@ package ipfscluster
 //@   property C10
 //@   requires pinsetInv()
 //@   counts vacateN when true
+//@   records lastVacated = p
 //@   ensures [never-unpins] nLogUnpin == old(nLogUnpin)
 //@   ensures [disabled-or-follower-does-nothing] c.config.DisableRepinning || c.config.FollowerMode ==> nLogPin == old(nLogPin)
 // "every pin it held ... is re-allocated": each listed pin allocated to p is offered for re-pinning, whatever happened to the ones before it
@@ -363,10 +365,10 @@ package ipfscluster
 //@ func (c *Cluster) PeerRemove
 //@   property C10 C17
 //@   requires pinsetInv()
-//@   at_call Consensus.RmPeer assert [vacated-before-removal] vacateN == old(vacateN) + 1 && p == pid
+//@   at_call Consensus.RmPeer assert [vacated-before-removal] vacateN == old(vacateN) + 1 && lastVacated == pid && p == pid
 //@   ensures [one-removal] rmPeerN == old(rmPeerN) + 1 && lastRmPeer == pid && vacateN == old(vacateN) + 1
 //@   ensures [never-unpins] nLogUnpin == old(nLogUnpin)
-//@   modifies vacateN, rmPeerN, lastRmPeer, nLogPin, lastLogged, repinOffered, heap(api.Pin)
+//@   modifies vacateN, lastVacated, rmPeerN, lastRmPeer, nLogPin, lastLogged, repinOffered, heap(api.Pin)
 
 // at most one peer considers itself closest: XOR with the CID's hash is injective, so two different peer hashes never tie
 //@ lemma xor_injective: forall a int, b int, k int :: a != b ==> (a ^ k) != (b ^ k)
